@@ -14,6 +14,8 @@ func init() {
 	commands["map-run"] = cmdMapRun
 	commands["multirun"] = cmdMultiRun
 	commands["nested-run"] = cmdNestedRun
+	commands["health-run"] = cmdHealthRun
+	commands["health-walks"] = cmdHealthWalks
 }
 
 func main() {
